@@ -36,6 +36,7 @@ type Val struct {
 	C   *big.Int
 	Clo *Closure
 	Why string // for KBad
+	Lit  []Val // KSlice used only as the variadic operand of append: explicit elements, no heap backing
 	Own  bool  // KSlice: backing array freshly allocated here and referenced by this value only
 	From *Cell // value was loaded from this local cell (provenance for move semantics)
 }
